@@ -39,7 +39,7 @@ def classified : List (String × Bool) := [
   ("verit_distinct_elim", false),
   ("verit_div_simplify", true),
   ("verit_eq_congruent", true),
-  ("verit_eq_congruent_pred", false),
+  ("verit_eq_congruent_pred", true),
   ("verit_eq_reflexive", true),
   ("verit_eq_simplify", true),
   ("verit_eq_transitive", true),
@@ -89,17 +89,17 @@ def classified : List (String × Bool) := [
   ("verit_or_neg", true),
   ("verit_or_pos", true),
   ("verit_or_simplify", true),
-  ("verit_prod_simplify", false),
+  ("verit_prod_simplify", true),
   ("verit_qnt_cnf", false),
   ("verit_qnt_join", false),
   ("verit_qnt_rm_unused", false),
   ("verit_qnt_simplify", false),
-  ("verit_refl", false),
+  ("verit_refl", true),
   ("verit_round_lia", false),
   ("verit_sko_ex", false),
   ("verit_sko_forall", false),
   ("verit_subproof", true),
-  ("verit_sum_simplify", false),
+  ("verit_sum_simplify", true),
   ("verit_th_resolution", true),
   ("verit_trans", true),
   ("verit_unary_minus_simplify", true),
@@ -120,7 +120,7 @@ theorem registry_classified : classified.map (·.1) = Gen.namesSorted := by deci
 theorem tier1_modelled : ∀ r ∈ Rule.all, (r.name, true) ∈ classified := by decide +kernel
 
 /-- … plus `verit_la_generic`, whose model (ModelLA.lean) works on parsed linear arithmetic -/
-theorem tier1_count : tier1.length = Rule.all.length + 6 ∧ ("verit_la_generic", true) ∈ classified
+theorem tier1_count : tier1.length = Rule.all.length + 9 ∧ ("verit_la_generic", true) ∈ classified
     ∧ ("verit_div_simplify", true) ∈ classified ∧ ("verit_eq_simplify", true) ∈ classified
     ∧ ("verit_comp_simplify", true) ∈ classified ∧ ("verit_minus_simplify", true) ∈ classified
     ∧ ("verit_unary_minus_simplify", true) ∈ classified := by decide +kernel
@@ -196,6 +196,16 @@ example :
       .ok ⟨[], mkOr (mkNot (mkEq (.var 0) (.var 1))) (mkEq (.comb (.const 100) (.var 0)) (.comb (.const 100) (.var 1)))⟩
     ∧ eqCongruent [mkNot (mkEq (.var 0) (.var 1)), mkEq (.comb (.const 100) (.var 0)) (.comb (.const 100) (.var 2))] = .error .verit :=
   ⟨rfl, rfl, rfl, rfl⟩
+
+/-- verit_refl (not in `Rule`: it introduces its own hypothesis): for a goal `x = t` / `t = x` with the
+context entry `x -> t` the returned sequent `x = t ⊢ goal` is valid -/
+theorem refl_sound (I : Interp) (cl : List Tm) (ctx : List (Tm × Tm)) (s : Seq)
+    (h : reflRule cl ctx = .ok s) : s.holds I := reflRule_sound I cl ctx s h
+
+/-- non-vacuity: with `x -> f y`, `f y = x` is accepted under the hypothesis `x = f y`; `x = z` is rejected -/
+example : reflRule [mkEq (.comb (.const 100) (.var 1)) (.var 0)] [(.var 0, .comb (.const 100) (.var 1))] =
+      .ok ⟨[mkEq (.var 0) (.comb (.const 100) (.var 1))], mkEq (.comb (.const 100) (.var 1)) (.var 0)⟩
+    ∧ reflRule [mkEq (.var 0) (.var 2)] [(.var 0, .comb (.const 100) (.var 1))] = .error .verit := ⟨rfl, rfl⟩
 
 /-! ### resolution -/
 
